@@ -348,6 +348,8 @@ impl Date {
     #[inline]
     pub fn now() -> Result<Date> {
         let now = Local::now().naive_local();
+        #[cfg(feature = "verif-hooks")]
+        let now = crate::verif_hooks::override_now(now);
         Date::try_from_ymd(now.year(), now.month(), now.day())
     }
 
